@@ -101,6 +101,7 @@ type Unit struct {
 	obls         []*Obligation
 	classSort    map[string]Sort
 	gens         map[string]Term
+	retainedCtr  int
 	genCtr       int
 	allocCtr     int
 	allocBase    Term
